@@ -29,7 +29,7 @@ import (
 // not differenced: the statement does not speak about timers of the replacement.
 type coordC15 struct{}
 
-func (coordC15) NeedShadow() bool                                      { return true }
+func (coordC15) NeedShadow() bool                                     { return true }
 func (coordC15) CheckTick(*coordWorld, *coordTick) []xstate.Violation { return nil }
 
 // coordProjDiff returns the first statement-level field in which a and b differ.
